@@ -39,10 +39,23 @@ theorem unknown_never_target (rs : List Rc.Report) (h : ∀ r ∈ rs, r.member =
   rw [hc, Rc.unknown_stays_unknown rs h] at hr
   cases hr
 
+/-- with the by-hand entry point: the cache holds what the LAST setting event set - an applying report its radius, an AddEnr by
+    which the node entered the table the maximum; AddEnr for a node already in the table sets nothing -/
+theorem radius_is_last_setter (c : Option Nat) (es : List Rc.Ev) :
+    Rc.runEv c es = match (es.filterMap Rc.sets).getLast? with
+      | some v => some v
+      | none => c := Rc.runEv_last_setter c es
+
+theorem addEnr_known_keeps_radius (c : Option Nat) : Rc.stepEv c (.addEnr false) = c := rfl
+
+example : Rc.runEv none [.addEnr true, .report ⟨true, true, true, 5⟩, .addEnr false] = some 5 := by decide
+
 example : Rc.run none [⟨true, true, true, 5⟩, ⟨true, false, true, 9⟩, ⟨true, true, true, 7⟩, ⟨false, true, true, 1⟩] = some 7 := by decide
 
 #print axioms gossip_rule
 #print axioms checked_relation_rule
 #print axioms radius_is_last_report
 #print axioms unknown_never_target
+#print axioms radius_is_last_setter
+#print axioms addEnr_known_keeps_radius
 end Props.C20
